@@ -49,20 +49,18 @@ def rule_derive_list(rep, crate):
         clo = crate.fns.get(m.group(1))
         cd = ret_desc(clo) if clo else '?'
         mm = re.fullmatch(r'call:std::option::Option::<T>::map_or\(call:syn::punctuated::Punctuated::<T, P>::last\(param2\.segments\),const:1,agg:closure:(.*?)\{\}\)', cd)
+        form = 'keep-unless-ne'
+        if not mm:
+            mm = re.fullmatch(r'Not\(call:std::option::Option::<T>::is_some_and\(call:syn::punctuated::Punctuated::<T, P>::last\(param2\.segments\),agg:closure:(.*?)\{\}\)\)', cd)
+            form = 'drop-if-eq'
         rep.inst(rid, 'strip_attributes:filter', detail=cd[:200])
         if not mm:
-            rep.viol(rid, 'derive-chain:filter', 'the derive filter is %s, expected path.segments.last().map_or(true, |s| s.ident != "Logos")' % cd[:200], loc(clo or fn))
+            rep.viol(rid, 'derive-chain:filter', 'the derive filter is %s, expected path.segments.last().map_or(true, |s| s.ident != "Logos") (or !is_some_and(== "Logos"))' % cd[:200], loc(clo or fn))
         else:
             c2 = crate.fns.get(mm.group(1))
             d2 = ret_desc(c2) if c2 else '?'
             consts = set()
             if c2:
-                for _b, _s, st in c2.stmts():
-                    for k in ('a',):
-                        o = st['rhs'].get(k)
-                        cb = const_bytes(o) if o else None
-                        if cb:
-                            consts.add(cb.decode('utf8', 'replace'))
                 for _b, tt in c2.calls():
                     for a in tt['args']:
                         cb = const_bytes(a)
@@ -71,8 +69,9 @@ def rule_derive_list(rep, crate):
                 sl_consts = {bytes.fromhex(v).decode('utf8', 'replace') for (ty, v, f) in c2.slice(dict(op='copy', place=dict(local=0, proj=[]))).consts if ty and 'str' in ty and v}
                 consts |= sl_consts
             rep.inst(rid, 'strip_attributes:filter-inner', detail=dict(ret=d2[:120], consts=sorted(consts)))
-            if not re.match(r'call:std::cmp::PartialEq::ne\(param2\.ident,', d2) or consts != {'Logos'}:
-                rep.viol(rid, 'derive-chain:filter-inner', 'the derive filter keeps a path unless %s (constants %s), expected ident != "Logos"' % (d2[:120], sorted(consts)), loc(c2 or fn))
+            want = r'call:(<.* as )?std::cmp::PartialEq(<.*>)?>?::%s\(param2\.ident,' % ('ne' if form == 'keep-unless-ne' else 'eq')
+            if not re.match(want, d2) or consts != {'Logos'}:
+                rep.viol(rid, 'derive-chain:filter-inner', 'the derive filter compares %s (constants %s), expected the last segment\'s ident against "Logos"' % (d2[:120], sorted(consts)), loc(c2 or fn))
     if not qs:
         rep.viol(rid, 'derive-chain:missing', 'strip_attributes no longer re-quotes the derive list', loc(fn))
     # the rewrite happens only for `derive` lists that parsed
